@@ -2,6 +2,8 @@ SPECIFICATION Spec
 CONSTANTS T = 6
  P = 1
  F = 2
+ Guarded = TRUE
+ Kinds = {"exception"}
  Serial = TRUE
  FaultSets <- SingleFaults
 INVARIANT ScheduleIndependent
